@@ -108,6 +108,13 @@ def rule_membership_tables(ctx: Ctx) -> None:
                     it = x.iter
                 elif isinstance(x, ast.comprehension):
                     it = x.iter
+                if it is not None and isinstance(it, (ast.Tuple, ast.List)) and it.elts and all(isinstance(e_, ast.Attribute) and e_.attr in ("entities", "sources", "probes") for e_ in it.elts):
+                    # `for group in (p.entities, p.sources, p.probes): for member in group: table[id(member)] = …` — one loop over all kinds
+                    gvar = path_of(x.target)
+                    inner_ok = isinstance(x, ast.For) and any(isinstance(y, ast.For) and path_of(y.iter) == gvar and any(
+                        isinstance(c, ast.Call) and path_of(c.func) == "id" and [path_of(a) for a in c.args] == [path_of(y.target)] for st in y.body for c in ast.walk(st)) for y in walk_stmts(x.body))
+                    if inner_ok or not isinstance(x, ast.For):
+                        kinds |= {e_.attr for e_ in it.elts}
                 if it is not None and isinstance(it, ast.Attribute) and it.attr in ("entities", "sources", "probes") and isinstance(it.value, ast.Name):
                     var = path_of(x.target)
                     scope = x.body if isinstance(x, ast.For) else None
